@@ -29,7 +29,8 @@ SPEC = dict(
           "word of 30..89 characters), usage line length default or 60..239, usage printed through -h/--help after any "
           "combination of --print-hidden / --print-deprecated / --help-short / --help-long; U1 a usage line longer than the "
           "line length holds, besides the key that starts it, at most one word; U2 the words of each displayed description "
-          "appear exactly once and in order, those of a suppressed argument never. "
+          "appear exactly once and in order, those of a suppressed argument never; U3 every description line below the captions "
+          "starts with at least the two indentations around the key column (6 blanks). "
           "distinct_nontrivial = distinct (configuration, text) with at least one word - by construction in exh, by hash "
           "in rand."),
     assumptions=["'word' = maximal run of characters other than blank and newline; 'nn' is a token only as a whole word",
@@ -52,7 +53,7 @@ SPEC = dict(
              timeout=7200),
         dict(name="usage", flavour="asan", cases={"quick": 40000, "thorough": 2000000},
              require_stats=["usage.lines", "usage.lines_exactly_line_length", "usage.overlong_single_word_lines", "usage.words_compared",
-                            "usage.descriptions_suppressed", "usage.wide_usages"],
+                            "usage.descriptions_suppressed", "usage.wide_usages", "usage.description_lines_checked_for_indentation"],
              timeout=7200),
     ],
 )
